@@ -65,6 +65,16 @@ def three_ways(chk, stream, texts, spec=True):
 
 def run(chk):
     rng = chk.rng
+
+    # decoding into a slice of the CALLER's struct type, which has private fields next to the exported ones: a document that
+    # happens to have fields of those names is read all the same (no panic), the private fields keep their values
+    pc = [("cprivate", [d]) for d in (b"Package: a\nseen: yes\n\nPackage: b\n", b"Package: a\ncount: x\nnote: n\ntags: t u\n", b"seen: no\nPackage: c\n\nnote: z\nPackage: d\n", b"Package: only\n")]
+    for c, r in zip(pc, chk.run_impl(pc)):
+        names = [l.split(b": ", 1)[1] for l in c[1][0].split(b"\n") if l.startswith(b"Package: ")]
+        want = "ok x%s x%s | ok %s" % (names[0].hex(), b"Package: p\n".hex(), "[ " + " ".join("x" + n.hex() for n in names) + " ]")
+        if r != want:
+            chk.violate({"kind": "property", "case": lib.show_case(c), "impl": r[:300], "expected": want,
+                         "explanation": "a document with fields named like private fields of the target struct was not decoded like any other (panic, error, a private field changed or written)"})
     # 1. documents from the model x layouts: the model of the document is the oracle
     docs = [debgen.rand_doc(rng) for _ in range(chk.n(3000, 60000))]
     texts, want = [], []
